@@ -126,6 +126,12 @@ def make_db(it):
 def run_formula(it):
     entry = it['entry']
     nd = it.get('ndraws', 6)
+    if entry in ('idmanager', 'idmanager_multi'):
+        # the IdManager itself on the formulas of the specification
+        from biogeme.expressions.idmanager import IdManager
+        trees = it['trees'] if entry == 'idmanager_multi' else [['f', it['tree']]]
+        m = IdManager([build(t, it['betas']) for _, t in trees], make_db(it), nd)
+        return {'status': 'accepted', 'value': sorted(m.draw_types().items()) if m.draws.names else 'no draws'}
     if entry == 'biogeme_multi':
         # a specification with several formulas: {'log_like': ..., 's1': ..., 'weight': ...} in the given order
         from biogeme.biogeme import BIOGEME
@@ -336,6 +342,104 @@ def run_history(it):
     raise ValueError(entry)
 
 
+def find_catalogs(e, acc=None):
+    """the catalog objects of a formula by name (all members are visited, not only the selected one)"""
+    from biogeme.catalog import Catalog
+    acc = acc if acc is not None else {}
+    if isinstance(e, Catalog):
+        acc[e.name] = e
+        for _, m in e.named_expressions:
+            find_catalogs(m, acc)
+    else:
+        for c in e.children:
+            find_catalogs(c, acc)
+    return acc
+
+
+def run_evalhist(it):
+    """REPEATED evaluations with the same identifiers (prepare_ids=False): expr.prepare(...) then get_value_c /
+    get_value_and_derivatives, the function returned by create_function, the object returned by create_objective_function;
+    between the calls the table or the selected member of a catalog changes.  One outcome per call."""
+    f = build(it['tree'], it['betas'])
+    db = make_db(it)
+    nd = it.get('ndraws', 5)
+    setup = it['setup']
+    cats = find_catalogs(f)
+    fct = None
+    if setup.startswith('prepare'):
+        f.prepare(db, nd)
+    elif setup == 'create_function':
+        fct = f.create_function(database=db, number_of_draws=nd, gradient=False, hessian=False, bhhh=False)
+    elif setup == 'create_function_g':
+        fct = f.create_function(database=db, number_of_draws=nd, gradient=True, hessian=False, bhhh=False)
+    elif setup.startswith('objective'):
+        fct = f.create_objective_function(database=db, number_of_draws=nd)
+    else:
+        raise ValueError(setup)
+    from biogeme.expressions.elementary_types import TypeOfElementaryExpression
+    free = f.dict_of_elementary_expression(TypeOfElementaryExpression.FREE_BETA)
+    x0 = [float(free[k].initValue) for k in sorted(free)]
+    calls = []
+    ncall = 0
+    stopped = False
+
+    def call():
+        nonlocal ncall
+        ncall += 1
+        x = np.array([v + ncall / 1024.0 for v in x0])     # a new point each time (the objective object caches by point)
+        if setup == 'prepare-gvc':
+            return summary(f.get_value_c(database=db, number_of_draws=nd, prepare_ids=False))
+        if setup == 'prepare-gvd':
+            r = f.get_value_and_derivatives(database=db, number_of_draws=nd, prepare_ids=False, gradient=True, hessian=True,
+                                            bhhh=False, aggregation=True)
+            return summary(r.function)
+        if setup in ('create_function', 'create_function_g'):
+            return summary(fct(x).function_output.function)
+        fct.set_variables(x)
+        if setup == 'objective-f':
+            return summary(fct.f())
+        if setup == 'objective-fg':
+            return summary(fct.f_g().function)
+        return summary(fct.f_g_h().function)
+
+    for op in it['script']:
+        if stopped:
+            if op == 'call':
+                calls.append({'status': 'skipped'})
+            continue
+        if op == 'call':
+            try:
+                calls.append({'status': 'accepted', 'value': call()})
+            except Exception as e:  # noqa
+                d = describe(e)
+                calls.append(d)
+                if d['engine']:
+                    stopped = True      # the engine keeps re-raising its first exception
+            continue
+        k = op[0]
+        if k == 'rename':
+            db.data = db.data.rename(columns={op[1]: op[2]})
+        elif k == 'rename_inplace':
+            db.data.rename(columns={op[1]: op[2]}, inplace=True)
+        elif k == 'drop':
+            db.data = db.data.drop(columns=[op[1]])
+        elif k == 'set':
+            db.data.loc[db.data.index[op[2] % len(db.data.index)], op[1]] = op[3]
+        elif k == 'scale':
+            db.scale_column(op[1], op[2])
+        elif k == 'select':
+            cats[op[1]].controlled_by.set_name(op[2])
+        elif k == 'empty':
+            from biogeme.expressions import Variable
+            db.remove(Variable(op[1]) == Variable(op[1]))
+        else:
+            raise ValueError(op)
+    out = {'status': 'done', 'calls': calls}
+    if stopped:
+        out['engine'] = True
+    return out
+
+
 def run_nests(it):
     from biogeme import models
     from biogeme.expressions import Beta, Variable, Numeric
@@ -399,6 +503,8 @@ def main():
                 r = run_nests(it)
             elif it['mode'] == 'history':
                 r = run_history(it)
+            elif it['mode'] == 'evalhist':
+                r = run_evalhist(it)
             else:
                 r = {'status': 'harness', 'msg': f'unknown mode {it["mode"]}'}
         except Exception as e:  # noqa
